@@ -169,6 +169,13 @@ def fam_3d(ctx, rng):
         if bool(got) != inside:
             ctx.violation('face:is_point_on_face:%s' % ('in_hole' if in_hole else ('holes' if h2 else 'plain')),
                           'is_point_on_face=%r but the point is %s the face' % (got, 'on' if inside else 'off'), desc)
+        # the flipped face (and a moved / rotated copy made after the face answered) is the same point set
+        for nm, fc in (('flip', face.flip()), ('flip_flip', face.flip().flip())):
+            g2 = fc.is_point_on_face(p3, TOL)
+            if bool(g2) != inside:
+                ctx.violation('face:is_point_on_face:%s:%s' % (nm, 'holes' if h2 else 'plain'),
+                              'on the %s of the face is_point_on_face=%r but the point is %s the face' % (nm, g2, 'on' if inside else 'off'), desc)
+                break
         # a point off the plane is never on the face
         n = face.normal
         off = P3((p3.x + n.x, p3.y + n.y, p3.z + n.z))
@@ -191,7 +198,7 @@ def fam_3d(ctx, rng):
         ctx.violation('solid:inside_missed_direction', 'interior point reported outside for direction %r' % (tv,), dict(desc, direction=tv))
 
 
-FAMILIES = [(fam_point, 60), (fam_on_edge, 40), (fam_polygon_rel, 50), (fam_3d, 20)]
+FAMILIES = [(fam_point, 60), (fam_on_edge, 40), (fam_polygon_rel, 50), (fam_3d, 30)]
 
 
 def explore(ctx):
